@@ -19,17 +19,22 @@ PROP = dict(
          "of each class reported; rng: a case is (seed, program); measurement: a case is one multi-tone configuration analysed at 5 amplitude "
          "scales by thd, sinad and snr. Non-trivial = every awgn / measurement case, programs of >= 2 calls, randi ranges with > 1 value",
     bounds=dict(
-        quick="awgn real+complex: seeds 0..99 x snr {-10,0,10,20,40,60,80} dB x signal power {1e-6,1,1e6} x {tone, constant modulus, "
-              "broadband} x N=10^4; rng replay: seeds 0..99 x all 819 programs of <= 3 calls over {rand(), rand(3), rand({a,b},2), randn(), "
+        quick="awgn real+complex: seeds 0..99 x snr {-10,0,10,20,40,60,80} dB x signal power {1e-6,1,1e6} x 7 signal letters (zero-mean: tone, "
+              "constant modulus, broadband; with DC: unipolar broadband 0.5+0.5*lcg, tone on a 3x offset, constant, carrier leak = constant "
+              "offset larger than the modulation) x N=10^4; rng replay: seeds 0..99 x all 819 programs of <= 3 calls over {rand(), rand(3), rand({a,b},2), randn(), "
               "randn(3), randi(5), randi({-2,2},3), awgn(real), awgn(complex)}; randi ranges {[1,1],[-3,-3],[-5,5],[0,1],[-2^30,2^30]} and "
               "randi(imax) imax {1,2,6,1000}, 10^4 draws x 20 seeds; thd/sinad/snr: N {2048,4096,5000,8192} x 3 fundamental positions x "
               "offsets {0,0.1,0.25,0.5,0.73} bin x 1..5 harmonics x <= 8 level patterns from {-10,-20,-30,-40} dBc x 3 phase letters x "
               "scales {1,1e-4,1e4,2^-13,2^13} (6480 configurations); odd lengths N {2049,4095,5001,8191 (prime),10001} on a reduced grid "
-              "(3 positions x offsets {0,0.25,0.73} x H {1,3,5} x 2 level patterns x 2 phase letters = 108 configurations each), same oracles",
+              "(3 positions x offsets {0,0.25,0.73} x H {1,3,5} x 2 level patterns x 2 phase letters = 108 configurations each), same oracles; "
+              "low-fundamental grid measure.lowfund: N {2^15, 2^17} x fundamental bin {110,150,200} x offsets {0,0.25} x non-monotone level "
+              "patterns {-40,-10,-30,-20} and {-30,-40,-10} dBc; every configuration also checks each harmonic's level "
+              "harmpow[k]-harmpow[0] within 0.1 dB of its true dBc",
         thorough="awgn seeds 0..999 at N=10^4, 0..99 at N=10^5, 0..9 at N=10^6; rng replay seeds 0..999; measurement: for N {2048,4096,5000,"
                  "8192} every combination of the first three harmonic levels (4+16+64+64+64 patterns, further levels derived), plus the "
                  "quick pattern set (1620 configurations each) at N=10000, N=2^17 and the odd lengths {2049,4095,5001,8191,10001}, and the "
-                 "reduced grid at the odd lengths 32767 and 100003"),
+                 "reduced grid at the odd lengths 32767 and 100003; measure.lowfund: N {2^14,2^15,2^16,2^17,40000} x bins {110,130,150,170,200} "
+                 "x all 5 offsets x 5 non-monotone level patterns x 3 phase letters"),
     deadline=dict(quick=150, thorough=1500),
     assumptions=COMMON_ASSUME + [
         "signal power P_x is mean |x|^2 (1/N); noise = y - x computed in long double",
@@ -38,7 +43,8 @@ PROP = dict(
         "'bin' for the 100-bin separation and the 0.1-bin frequency tolerance is 1/N of the record (N <= nfft): components are >= 100/N "
         "apart and from DC / Nyquist (at least as strict as the FFT grid); reported harmonic frequencies are compared in bins of the signal "
         "length: |harmfreq*N - true frequency*N| <= 0.1, for even, odd, prime and power-of-two N alike",
-        "thd and snr are called with nharm = number of components present; sinad is compared with the fundamental-to-harmonics ratio",
+        "thd and snr are called with nharm = number of components present; sinad is compared with the fundamental-to-harmonics ratio; "
+        "the per-harmonic entries of ThdRes.harmpow are compared relative to harmpow[0] (level in dBc) with the 0.1 dB of the thd statement",
         "scale invariance is required within 1e-6 dB for thd, sinad and for snr with one harmonic left in the noise; snr of a noise-free "
         "signal with every component removed measures the rounding floor of the scaled samples and is only required to be unchanged "
         "under power-of-two scalings (exact); its change under 1e+-4 is reported, not judged",
